@@ -504,6 +504,9 @@ func (e *Eng) termsSlice(bs []*Term, name string) SliceVal {
 	n := e.tb.I64(int64(len(bs)))
 	o := e.newObj(n, name)
 	for i, b := range bs {
+		if b == nil {
+			panic(fmt.Sprintf("termsSlice(%s): nil term at %d of %d", name, i, len(bs)))
+		}
 		e.bwrite(o, e.tb.I64(int64(i)), b)
 	}
 	return SliceVal{o, e.tb.I64(0), n, n}
